@@ -323,8 +323,10 @@ ApplyExact(f, args, REG) ==
 
 (* custom functions declared with a signature (CustomFunction::new): validated like a built-in before the closure is invoked.
    Declared parameter types may nest (functions.rs ArgumentType: TypedArray(inner), Union(alternatives), Any):
-     "sigconst" (number)   "sigaan" (array[array[number]])   "sigaun" (array[number|string])   "sigaany" (array[any]) *)
-SigKinds == {"sigconst", "sigaan", "sigaun", "sigaany"}
+     "sigconst" (number)   "sigaan" (array[array[number]])   "sigaun" (array[number|string])   "sigaany" (array[any])
+   and a signature may be variadic (Signature::new(inputs, Some(type))): every argument beyond the declared ones has the variadic type
+     "sigvar" (string, number...)   "sigvar0" (number...) *)
+SigKinds == {"sigconst", "sigaan", "sigaun", "sigaany", "sigvar", "sigvar0"}
 TyNum == [k |-> "num"]  TyStr == [k |-> "str"]  TyAny == [k |-> "any"]
 TyArr(of) == [k |-> "arr", of |-> of]
 TyUnion(alts) == [k |-> "union", alts |-> alts]
@@ -336,7 +338,12 @@ TFits(v, ty) == CASE ty.k = "any" -> TRUE
                   [] ty.k = "str" -> v.t = "str"
                   [] ty.k = "arr" -> v.t = "arr" /\ \A i \in DOMAIN v.a : TFits(v.a[i], ty.of)
                   [] ty.k = "union" -> \E j \in DOMAIN ty.alts : TFits(v, ty.alts[j])
-SigValidate(kind, args) == IF Len(args) # 1 THEN "arity" ELSE IF TFits(args[1], CustomSig(kind)) THEN "ok" ELSE "type"
+SigParams(kind) == CASE kind = "sigvar" -> <<TyStr>> [] kind = "sigvar0" -> <<>> [] OTHER -> <<CustomSig(kind)>>
+SigVariadic(kind) == IF kind \in {"sigvar", "sigvar0"} THEN TyNum ELSE [k |-> "none"]
+SigValidate(kind, args) ==
+  LET ps == SigParams(kind)  var == SigVariadic(kind) IN
+  IF Len(args) < Len(ps) \/ (var.k = "none" /\ Len(args) > Len(ps)) THEN "arity"
+  ELSE IF \A i \in DOMAIN args : TFits(args[i], IF i <= Len(ps) THEN ps[i] ELSE var) THEN "ok" ELSE "type"
 SigConstValidate(args) == SigValidate("sigconst", args)
 CustomInvoked(b, args) == b.k \in {"const", "first"} \/ (b.k \in SigKinds /\ SigValidate(b.k, args) = "ok")
 
